@@ -42,3 +42,82 @@ package handler
 //@   ensures [rejected] !admitted ==> calls(next.ServeHTTP) == 0 && calls(unauthorized) == 1
 //@   ensures [admitted] admitted ==> calls(next.ServeHTTP) == 1 && calls(unauthorized) == 0
 //@   ensures [parse-args] calls(ParseToken) == 1 && arg(ParseToken, 1) == r && arg(ParseToken, 2) == secret && arg(ParseToken, 3) == authOpts.PrevSecret
+
+// ---------------- server guards (C02) ----------------
+
+// timeoutWriter: the handler's output is only buffered; after the deadline it is refused; the real writer
+// (tw.w) is never touched by Write/WriteHeader.
+//@ func (*timeoutWriter).Write
+//@   prop C02
+//@   opaque checkWriteHeaderCode, relevantCaller, Errorf
+//@   requires tw != nil
+//@   ensures [refused-after-timeout] old(tw.timedOut) ==> result0 == 0 && result1 == http.ErrHandlerTimeout && calls(Write) == 0 && tw.wroteHeader == old(tw.wroteHeader) && tw.code == old(tw.code)
+//@   ensures [buffered] !old(tw.timedOut) ==> calls(tw.wbuf.Write) == 1 && arg(tw.wbuf.Write, 1) == p && result0 == ret(tw.wbuf.Write, 0)
+//@   ensures [implicit-200-committed] !old(tw.timedOut) && !old(tw.wroteHeader) ==> tw.wroteHeader && tw.code == 200
+//@   ensures [first-status-wins] !old(tw.timedOut) && old(tw.wroteHeader) ==> tw.code == old(tw.code) && tw.wroteHeader
+//@   ensures [never-the-real-writer] calls(tw.w.Write) == 0 && calls(tw.w.WriteHeader) == 0 && tw.w == old(tw.w)
+//@ func (*timeoutWriter).WriteHeader
+//@   prop C02
+//@   opaque checkWriteHeaderCode, relevantCaller, Errorf
+//@   requires tw != nil
+//@   ensures [first-status-wins] !old(tw.timedOut) && !old(tw.wroteHeader) ==> tw.wroteHeader && tw.code == code
+//@   ensures [later-status-ignored] old(tw.wroteHeader) || old(tw.timedOut) ==> tw.code == old(tw.code) && tw.wroteHeader == old(tw.wroteHeader)
+//@   ensures [never-the-real-writer] calls(tw.w.WriteHeader) == 0 && calls(tw.w.Write) == 0
+//@   ensures [validated] calls(checkWriteHeaderCode, code) == 1
+
+// The timeout response: 499 on client cancel, 503 otherwise, with the fixed body.
+//@ func (*timeoutHandler).ServeHTTP$2
+//@   prop C02
+//@   ensures [status] (ret(errors.Is) ==> calls(w.WriteHeader, 499) == 1) && (!ret(errors.Is) ==> calls(w.WriteHeader, 503) == 1) && calls(WriteHeader) == 1
+//@   ensures [cancel-test] calls(errors.Is, err, context.Canceled) == 1
+//@   ensures [body] calls(io.WriteString) == 1 && arg(io.WriteString, 0) == w && before(WriteHeader, io.WriteString)
+
+// The handler goroutine: runs the handler against the buffering writer and signals completion; a panic is
+// handed to ServeHTTP exactly once instead.
+//@ func (*timeoutHandler).ServeHTTP$1
+//@   prop C02
+//@   may-panic ServeHTTP
+//@   ensures [runs-handler-on-buffer] calls(h.handler.ServeHTTP) == 1 && unbox(arg(ServeHTTP, 0), ptr(timeoutWriter)) == tw && arg(ServeHTTP, 1) == r
+//@   ensures [done-or-panic] panicked(ServeHTTP) ==> calls("send") == 1 && calls("close") == 0
+//@   ensures [done] !panicked(ServeHTTP) ==> calls("close") == 1 && calls("send") == 0
+
+// ServeHTTP: exactly one of the three outcomes is produced on the real writer.
+//@ func (*timeoutHandler).ServeHTTP
+//@   prop C02
+//@   opaque ErrorCtx, Get, WithContext, Context
+//@   requires h != nil && r != nil
+//@   let tw = local(tw)
+//@   let finished = calls(Bytes) == 1
+//@   loop 1 iteration-ensures [header-copied] has(dst, k) && dst[k] == vv
+//@   ensures [websocket-bypass] ret(Get) == "websocket" ==> calls(h.handler.ServeHTTP, w, r) == 1 && calls("go (*timeoutHandler).ServeHTTP$1") == 0
+//@   ensures [finished-first-flushes-buffer] finished ==> calls(w.WriteHeader) == 1 && arg(w.WriteHeader, 0) == ite(old(true) && tw.wroteHeader, tw.code, 200) && calls(w.Write) == 1 && arg(w.Write, 0) == ret(Bytes) && before(WriteHeader, Write) && calls(ErrorCtx) == 0 && !tw.timedOut
+//@   ensures [timeout-discards-buffer] calls(ErrorCtx) == 1 ==> tw.timedOut && calls(Bytes) == 0 && calls(w.Write) == 0 && calls(w.WriteHeader) == 0 && arg(ErrorCtx, 1) == w && before(on("lock", tw.mu), ErrorCtx)
+//@   ensures [one-outcome] ret(Get) != "websocket" ==> calls(Bytes) + calls(ErrorCtx) == 1 && calls("go (*timeoutHandler).ServeHTTP$1") == 1
+//@   ensures [context-released] ret(Get) != "websocket" ==> calls(cancelCtx) == 1
+
+// MaxConns: a request runs the handler only while holding a slot, which is returned exactly once (also on
+// panic); a rejected request gets 503 and neither runs the handler nor returns a slot it never had.
+//@ func MaxConns$2$1
+//@   prop C02
+//@   opaque TryBorrow, Return, Error, Errorf
+//@   may-panic ServeHTTP
+//@   ensures [admitted] ret(TryBorrow) ==> calls(next.ServeHTTP, w, r) == 1 && calls(Return) == 1 && before(ServeHTTP, Return) && calls(WriteHeader) == 0
+//@   ensures [rejected] !ret(TryBorrow) ==> calls(next.ServeHTTP) == 0 && calls(Return) == 0 && calls(w.WriteHeader, 503) == 1
+//@   panic-ensures [slot-returned-on-panic] calls(Return) == 1
+
+// MaxBytes: a declared length above the limit is answered 413 without reaching the handler.
+//@ func MaxBytesHandler$2$1
+//@   prop C02
+//@   opaque Errorf
+//@   requires r != nil
+//@   ensures [too-large] r.ContentLength > n ==> calls(w.WriteHeader, 413) == 1 && calls(next.ServeHTTP) == 0
+//@   ensures [within-limit] r.ContentLength <= n ==> calls(next.ServeHTTP, w, r) == 1 && calls(WriteHeader) == 0
+
+// RecoverHandler: a panic of the inner chain is answered with 500 and does not propagate.
+//@ func RecoverHandler$1
+//@   prop C02
+//@   opaque Error, Sprintf, Stack
+//@   may-panic ServeHTTP
+//@   nopanic
+//@   ensures [runs-next] calls(next.ServeHTTP, w, r) == 1
+//@   ensures [500-on-panic] panicked(ServeHTTP) == (calls(w.WriteHeader, 500) == 1) && calls(WriteHeader) <= 1
